@@ -41,9 +41,9 @@ def enc_rule(repo, res, rule="ENC", tier="quick"):
         res.undecided(rule, f"{rule}:{ENCODER}", f"{len(cands)} functions named {ENCODER}")
         return
     fn = cands[0]
-    ch = X.extract_chain(fn)
+    ch = X.extract_encoder(fn)
     if ch is None:
-        res.undecided(rule, f"{rule}:{fn.qname}", "encoder is not a recognisable replace chain (cannot decide)", fn.loc())
+        res.undecided(rule, f"{rule}:{fn.qname}", "encoder is neither a replace chain nor a per-character loop of the recognised form (cannot decide)", fn.loc())
         return
     prefix, suffix, chain = ch
     if (prefix, suffix) != ("", ""):
